@@ -25,6 +25,21 @@ type lc struct {
 	vi   int
 	o    *cached // original object + reference encodings
 	name string  // scenario name (for Outcome)
+	seed uint64
+}
+
+// failResult reports a fatal error or panic observed by the helper process.
+func (x *lc) failResult(family string, r result, what string) {
+	switch {
+	case r.Fatal != "":
+		x.c.Fail(sig(family, r.FatalSite, "fatal:"+r.Fatal), "%s %s: the process was killed by an unrecoverable runtime error (%s) in %s", x.e.name, what, r.Fatal, r.FatalSite)
+	case r.Panic != "":
+		k := "panic:" + r.PanicKind
+		if r.PanicKind == "unchecked-length" {
+			k = "unchecked-length"
+		}
+		x.c.Fail(sig(family, r.Site, k), "%s %s: panic in %s: %s", x.e.name, what, r.Site, r.Panic)
+	}
 }
 
 func sig(family, subject, kind string) string { return "C08/" + family + "/" + subject + "/" + kind }
@@ -671,9 +686,13 @@ func famFragmentation(x *lc) {
 	if !x.baseline(decoders[1]) {
 		return
 	}
-	v, o := x.fragRun(bs, ch)
-	x.c.Outcome(x.name, bs, ch.name, ch.zeroAt, v.kind)
-	if v.kind == "" {
+	run := func(bs int, ch chunking) result {
+		return runJob(job{Seed: x.seed, Entry: x.e.name, Vi: x.vi, Op: "frag", Buf: bs, Chunk: ch})
+	}
+	bad := func(r result) bool { return !r.ok() || r.VKind != "" }
+	r := run(bs, ch)
+	x.c.Outcome(x.name, bs, ch.name, ch.zeroAt, r.VKind, r.Err != "", r.Panic != "", r.Fatal)
+	if !bad(r) {
 		return
 	}
 	// Diagnose which part of the environment matters, so that one defect has one signature:
@@ -686,21 +705,24 @@ func famFragmentation(x *lc) {
 	case bs == 0 || bs == 4096:
 		env = ch.class()
 	default:
-		if vf, _ := x.fragRun(bs, full); vf.kind != "" {
+		if bad(run(bs, full)) {
 			env = bufName(bs)
-		} else if vc, _ := x.fragRun(4096, ch); vc.kind != "" {
+		} else if bad(run(4096, ch)) {
 			env = ch.class()
 		} else {
 			env = bufName(bs) + "+" + ch.class()
 		}
 	}
-	what := v.msg
-	if o.err != nil {
-		what = "error: " + o.err.Error()
+	what := r.VMsg
+	switch {
+	case r.Fatal != "":
+		what = fmt.Sprintf("PROCESS KILLED: fatal error: %s in %s", r.Fatal, r.FatalSite)
+		x.c.Cover("frag-result", "fatal")
+	case r.Panic != "": // a panic here is a symptom of the environment (mis-framed stream), classified like an error
+		what = fmt.Sprintf("panic in %s: %s", r.Site, r.Panic)
+	case r.Err != "":
+		what = "error: " + r.Err
 	}
-	if o.panicked != nil { // a panic here is a symptom of the environment (mis-framed stream), classified like an error
-		what = fmt.Sprintf("panic in %s: %s", o.site, o.panicMsg())
-	}
-	x.c.Fail(sig("fragmentation", x.e.name+".ReadFrom", env), "%s [%s] (%d bytes) read through %s with chunking %s (zero-read at %d): %s",
+	x.c.Fail(sig("fragmentation", x.e.name+".ReadFrom", env), "%s [%s] (%d valid bytes) read through %s with chunking %s (zero-read at %d): %s",
 		x.e.name, x.e.vals[x.vi].label, len(x.o.wbin), bufName(bs), ch.name, ch.zeroAt, what)
 }
